@@ -24,7 +24,12 @@ func (r *router) loadRule(cfg *RuleConfig) (*rule, error) {
 		ru.reverse = cfg.Reverse
 	}
 
-	ru.reject = cfg.Reject
+	// The rcode field of the dns header has 4 bits. Larger values would run
+	// into the other header flags.
+	if cfg.Reject < 0 || cfg.Reject > 15 {
+		return nil, fmt.Errorf("invalid reject rcode %d, must be in 0~15", cfg.Reject)
+	}
+	ru.reject = uint16(cfg.Reject)
 
 	if len(cfg.Forward) > 0 {
 		u := r.upstreams[cfg.Forward]
